@@ -209,7 +209,9 @@ JudgeDecapQ(e, rx, q, crc) ==
                   /\ r.meta.label = g.first.label /\ r.meta.ptype = g.first.ptype /\ r.meta.exts = g.first.exts,
                <<"C03">>, "Rx.DeliveredIsConcatenation")
         \cup V(kind = "end" /\ r.t = "completed" => ~g.done, <<"C07", "C02">>, "Rx.ExactlyOnce")
-        \cup V(eMust => (r.t = "completed" \/ ~np), PP(<<"C02">>), "Rx.EndDelivers")
+        \* (a train that verifies under the specification's CRC must be delivered: if it is not, the receiver's
+        \* own length / CRC recomputation is at fault - C12 for the CRC arguments)
+        \cup V(eMust => (r.t = "completed" \/ ~np), PP(<<"C02", "C12">>), "Rx.EndDelivers")
         \cup V(wf /\ kind = "end" /\ r.t = "err" /\ gAgree /\ ~verified => cons = pl, <<"C10">>, "Rx.RejectOwnLen.badcrc")
         \cup V(unknownId => (r.t = "err" /\ cons = pl), <<"C10", "C07">>, "Rx.UnknownIdRejectedOwnLen")
         \* isolation, conservation
